@@ -250,8 +250,12 @@ class Parser:
                 return self.trigger_error(
                     'Rows and columns not supported for {}'.format(
                         self._op_code.name.lower()))
+            # Commands inside a begin/end block have their own op codes; what
+            # gets issued for this operand is still the outer command's.
+            op_code = self._op_code
             if not MatrixParser(self).matrix_spec():
                 return False
+            self._op_code = op_code
             operand = Operand.MATRIX_LIGHT
 
         self._add_instruction(OpCode.MOVEQ, operand, Register.OPERAND)
